@@ -24,6 +24,8 @@ ASSUMPTIONS = ['the observation points are those of the statement: after simulat
                'values poked by the harness itself go through Wire.put (the public way to drive an undriven wire)']
 BOUNDS = {'quick': 'catalogue at the quick grids; extremes for widths 0..3 and the special widths (incl. one operand wider than the result for 10 two-operand primitives, Mux2 and Mux, either position / selection); numpy integer scalars of every dtype as stimulus',
           'thorough': 'catalogue at the thorough grids; extremes for widths 0..6 and the special widths; numpy scalars'}
+for k in ('quick', 'thorough'):
+    BOUNDS[k] += '; also every one-operand primitive with a result narrower than its operand and a constant shift whose amount parameter changes after the simulator exists'
 CHUNK = 60
 
 
